@@ -47,6 +47,7 @@ type progResult struct {
 	Features   []string    `json:"features"`
 	Types      int         `json:"types"`
 	Values     int         `json:"values"`
+	Defaults   int         `json:"fields_left_at_declared_default"`
 	Encodings  int         `json:"encodings"`
 	Reads      int         `json:"reads"`
 	MissingReq int         `json:"missing_required_cases"`
@@ -144,6 +145,7 @@ func main() {
 				run.Eval(r.Values * 3)
 				totals["types"] += r.Types
 				totals["values"] += r.Values
+				totals["fields_left_at_declared_default"] += r.Defaults
 				totals["encodings_decoded"] += r.Encodings
 				totals["reference_encodings_read"] += r.Reads
 				totals["missing_required_cases"] += r.MissingReq
